@@ -64,12 +64,20 @@ def spelled(case, spelling, container):
         kw.update(short_p)
         if needs_audio:
             kw.update(short_audio)
-    else:  # both given, the short one deliberately wrong: the long name must win
-        kw.update(long_p)
-        kw.update(wrong_p)
-        if needs_audio:
-            kw.update(long_audio)
-            kw.update(wrong_audio)
+    else:  # both given, the short one deliberately wrong: the long name must win - whichever the caller wrote first
+        if case["pcm_seed"] & 1:
+            kw.update(wrong_p)
+            if needs_audio:
+                kw.update(wrong_audio)
+            kw.update(long_p)
+            if needs_audio:
+                kw.update(long_audio)
+        else:
+            kw.update(long_p)
+            kw.update(wrong_p)
+            if needs_audio:
+                kw.update(long_audio)
+                kw.update(wrong_audio)
     if spelling.startswith("validator"):
         good = AudioEnergyValidator(case["thr"], case["width"], case["channels"], use_channel=case["uc"])
         for k in ("energy_threshold", "eth", "use_channel", "uc"):
@@ -77,8 +85,12 @@ def spelled(case, spelling, container):
         if spelling == "validator_long":
             kw["validator"] = good if case["pcm_seed"] & 8 else good.is_valid
         else:
-            kw["validator"] = good
-            kw["val"] = lambda frame: True  # wrong on purpose
+            if case["pcm_seed"] & 1:
+                kw["val"] = lambda frame: True  # wrong on purpose, and written first
+                kw["validator"] = good
+            else:
+                kw["validator"] = good
+                kw["val"] = lambda frame: True  # wrong on purpose
     return kw
 
 
@@ -89,8 +101,11 @@ def run_container(ctx, case, data, tmp, container, spelling, max_read, rng):
         if spelling == "short":
             kw["mr"] = max_read
         elif spelling in ("both_wrong_short", "validator_both"):
-            kw["max_read"] = max_read
-            kw["mr"] = max_read / 3 + 0.01
+            if case["pcm_seed"] & 1:
+                kw = dict({"mr": max_read / 3 + 0.01, "max_read": max_read}, **kw)  # alias first
+            else:
+                kw["max_read"] = max_read
+                kw["mr"] = max_read / 3 + 0.01
         else:
             kw["max_read"] = max_read
     cleanup = lambda: None
@@ -130,8 +145,11 @@ def run_container(ctx, case, data, tmp, container, spelling, max_read, rng):
             if spelling == "short":
                 kw["fmt"] = "raw"
             elif spelling in ("both_wrong_short", "validator_both"):
-                kw["audio_format"] = "raw"
-                kw["fmt"] = "wav"
+                if case["pcm_seed"] & 1:
+                    kw = dict({"fmt": "wav", "audio_format": "raw"}, **kw)
+                else:
+                    kw["audio_format"] = "raw"
+                    kw["fmt"] = "wav"
             else:
                 kw["audio_format"] = "raw"
             gen = auditok.split(path, **kw)
